@@ -2,7 +2,7 @@
     The harness (and the extracted OCaml driver) talk to the models only
     through this function.  Decoding glue only; no proofs. *)
 From Coq Require Import ZArith List Bool.
-From PV Require Import Flat Bytes BinFmt RWQc.
+From PV Require Import Flat Bytes BinFmt RWQc Sched.
 Import ListNotations.
 Open Scope Z_scope.
 
@@ -63,6 +63,22 @@ Definition m_entry (inp : list Z) : list Z :=
   | None => bad_case
   end.
 
+(** 203: list, n -> ndl.slice_list(list, n) as a sequence of lists *)
+Definition m_slice_list (inp : list Z) : list Z :=
+  match rd_list inp with
+  | Some (l, n :: _) =>
+    let parts := slice_list l (Z.to_nat n) in
+    Z.of_nat (length parts) :: flat_map wr_list parts
+  | _ => bad_case
+  end.
+
+(** 204: len, chunk -> the (start, end) ranges of the OpenMP parts, in 32-bit arithmetic *)
+Definition m_omp_ranges (inp : list Z) : list Z :=
+  match inp with
+  | len :: chunk :: _ => flat_map (fun r => [fst r; snd r]) (omp_ranges len chunk)
+  | _ => bad_case
+  end.
+
 Definition run_core (id : Z) (inp : list Z) : option (list Z) :=
   if id =? 101 then Some (m_encode inp)
   else if id =? 102 then Some (m_py_read inp)
@@ -71,6 +87,8 @@ Definition run_core (id : Z) (inp : list Z) : option (list Z) :=
   else if id =? 105 then Some (m_entry inp)
   else if id =? 201 then Some (m_dict inp)
   else if id =? 202 then Some (m_kernel inp)
+  else if id =? 203 then Some (m_slice_list inp)
+  else if id =? 204 then Some (m_omp_ranges inp)
   else None.
 
 (** one runner per model family; the first that knows the id answers *)
